@@ -85,7 +85,11 @@ def make_inventory_object(resource_provider, resource_class, **data):
         inventory = inv_obj.Inventory(
             resource_provider=resource_provider,
             resource_class=resource_class, **data)
-    except (ValueError, TypeError) as exc:
+        # The capacity is computed from values the JSON schema cannot fully
+        # constrain (a NaN or infinite allocation_ratio); make sure it can
+        # be computed here, where a failure is reported as a bad request.
+        inventory.capacity
+    except (ValueError, TypeError, OverflowError) as exc:
         raise webob.exc.HTTPBadRequest(
             'Bad inventory %(class)s for resource provider '
             '%(rp_uuid)s: %(error)s' % {'class': resource_class,
